@@ -250,7 +250,7 @@ def execute(scn):
         return {"harness_error": "event cap reached", "violations": [], "stats": stats}
 
     # expected calls; 'fails' is by construction of the fault entry
-    exp = pl.expected_calls(cfg, set(tbl["cols"]))
+    exp = pl.expected_calls(cfg, pl.stream_id_universe(tbl))
     for e in exp:
         e["window"] = cfg["contexts"][e["ctx"]].get("window")
         e["fails"] = e["entry"]["role"] not in ("healthy", "F6d")
